@@ -285,6 +285,131 @@ theorem inst_steps (orc : Oracle) : ∀ (cs : List Cfg) (c : Cfg) (ts : List (To
         rw [this, parseToks_append, e1, e2]
       · rw [hopts2, hres, withInstances_withInstances]
 
+/-! ## a single (non-multi) section: the instance `cfg_init` created is entered again -/
+
+/-- `cfg_setopt` on a single section option that has its instance: the instance stays, the option is marked set -/
+theorem setopt_single (orc : Oracle) (k : Nat) (ci : CfgInfo) (o : Opt) (s : Cfg) (ho : secOpt o) (hm : o.flags.multi = false)
+    (hl : o.flags.list = false) (hv : o.vals = [.sec s]) :
+    setopt orc k ci o none = ⟨Opt.mk o.info { o.flags with modified := true } o.subs [.sec s] o.comment, some 0, [], []⟩ := by
+  unfold setopt
+  rw [setoptConvert_sec orc k o none ho.1]
+  obtain ⟨inf, f, sb, vs, cm⟩ := o
+  have h1 := ho.1; have h2 := ho.2
+  simp_all [dropDefaults, setoptStore, Opt.ty, Opt.info, Opt.vals, Opt.flags, Opt.subs, Opt.comment, listSet]
+
+/-- the existing instance as the child frame sees it: at the enclosing context's line and under its file name -/
+def enterInstance (pc s : Cfg) : Cfg :=
+  s.setInfo { s.info with line := pc.line,
+                          filename := (match pc.info.filename with | some n => some n | none => s.info.filename) }
+
+theorem enterInstance_opts (pc s : Cfg) : (enterInstance pc s).opts = s.opts := by
+  unfold enterInstance; cases s; rfl
+
+theorem enterInstance_flags (pc s : Cfg) : (enterInstance pc s).flags = s.flags := by
+  unfold enterInstance; cases s; rfl
+
+/-- `{` after the name of a single section: a frame for its one instance is pushed -/
+theorem pstep_lbrace_single (orc : Oracle) (m : PM) (f : Frame) (rest : List Frame) (n : Nat) (r : OptRef) (o : Opt) (s : Cfg)
+    (hrun : m.status = .running) (hfr : m.frames = f :: rest) (hst : f.state = .s5) (hopt : f.opt = some r) (hot : f.opttitle = none)
+    (hget : f.cfg.getOpt r = some o) (ho : secOpt o) (hm : o.flags.multi = false) (hl : o.flags.list = false) (hv : o.vals = [.sec s]) :
+    pstep orc m .lbrace n =
+      { m with frames :=
+          { cfg := enterInstance ((f.cfg.setLine (f.cfg.line + n)).setOpt r (Opt.mk o.info { o.flags with modified := true } o.subs [.sec s] o.comment)) s,
+            level := f.level + 1, back := some (r, 0) } ::
+          { f with cfg := (f.cfg.setLine (f.cfg.line + n)).setOpt r (Opt.mk o.info { o.flags with modified := true } o.subs [.sec s] o.comment),
+                   opttitle := none } :: rest,
+               maxDepth := max m.maxDepth (rest.length + 2) } := by
+  obtain ⟨cfg, level, state, opt, comment, opttitle, funcargs, ignore, depth, numValues, back⟩ := f
+  simp only at hst hopt hget hot
+  subst hst; subst hopt; subst hot
+  unfold pstep
+  simp only [hrun, hfr]
+  simp only [step_s5, getOpt_setLine, Option.bind, hget, PM.k]
+  rw [setopt_single orc _ _ o s ho hm hl hv]
+  simp [PM.addCalls, PM.addDiags, enterInstance, Opt.vals, setOpt_info, Cfg.line]
+  rfl
+
+/-- a single section option the round trip covers (declaration side) -/
+structure SingleDecl (o : Opt) : Prop where
+  sec : secOpt o
+  single : o.flags.multi = false
+  nolist : o.flags.list = false
+  notitle : o.flags.title = false
+  noValid : o.info.validCb = false
+  notDep : o.flags.deprecated = false
+  name : plainName o.name
+
+/-- **the printed instance of a single section.** `name { body }` for a section that is not multi and holds its one
+instance `s0` (as after `cfg_init`, or after anything else): the instance is entered, the body's tokens leave its
+options holding exactly the printed values (whatever they held), and it is written back in place. -/
+theorem C05_single_section_item (orc : Oracle) (m : PM) (f : Frame) (rest : List Frame) (o0 : Opt) (s0 : Cfg) (pre post : List Opt) (c : Cfg)
+    (body : List (Tok × Nat)) (n1 n2 n3 : Nat)
+    (hrun : m.status = .running) (hfr : m.frames = f :: rest) (hat : AtItem f) (hot : f.opttitle = none)
+    (hopts : f.cfg.opts = pre ++ o0 :: post)
+    (hpre : ∀ p ∈ pre, titleEq f.cfg.flags.nocase p.name o0.name = false)
+    (hd : SingleDecl o0) (hv0 : o0.vals = [.sec s0]) (hbody : FlatToks c.opts body)
+    (hal : All2 Aligned c.opts s0.opts)
+    (hpw : List.Pairwise (fun a b => titleEq s0.flags.nocase a.name b.name = false) c.opts) :
+    ∃ f' res s', parseToks orc m ([(.str o0.name, n1), (.lbrace, n2)] ++ body ++ [(.rbrace, n3)]) =
+        { m with frames := f' :: rest, maxDepth := max m.maxDepth (rest.length + 2) } ∧
+      AtItem f' ∧ f'.opttitle = none ∧ f'.level = f.level ∧ f'.back = f.back ∧
+      f'.cfg.opts = pre ++ res :: post ∧ f'.cfg.flags = f.cfg.flags ∧
+      res = Opt.mk o0.info { o0.flags with modified := true } o0.subs [.sec s'] o0.comment ∧
+      All2 (fun r o => r.vals = o.vals) s'.opts c.opts := by
+  let r : OptRef := ⟨[], pre.length⟩
+  have hlook := getoptPath_top f.cfg o0.name pre o0 post hd.name hopts hpre (titleEq_refl _ _)
+  have hget := getOpt_top f.cfg pre o0 post hopts
+  let mk : Frame → PM := fun F => { m with frames := F :: rest }
+  let F1 : Frame := { f with cfg := f.cfg.setLine (f.cfg.line + n1), opt := some r, state := .s5 }
+  have e1 : pstep orc m (.str o0.name) n1 = mk F1 :=
+    pstep_name_sec orc m f rest o0.name n1 r o0 hrun hfr hat.st hat.nd hlook.1 hlook.2 hget hd.sec.1 hd.notitle
+  have g1 : F1.cfg.getOpt r = some o0 := by show (f.cfg.setLine _).getOpt r = some o0; rw [getOpt_setLine]; exact hget
+  let O1 : Opt := Opt.mk o0.info { o0.flags with modified := true } o0.subs [.sec s0] o0.comment
+  let P : Cfg := (F1.cfg.setLine (F1.cfg.line + n2)).setOpt r O1
+  let child : Frame := { cfg := enterInstance P s0, level := f.level + 1, back := some (r, 0) }
+  let F2 : Frame := { F1 with cfg := P, opttitle := none }
+  let m2 : PM := { m with frames := child :: F2 :: rest, maxDepth := max m.maxDepth (rest.length + 2) }
+  have e2 : pstep orc (mk F1) .lbrace n2 = m2 := by
+    have := pstep_lbrace_single orc (mk F1) F1 rest n2 r o0 s0 hrun rfl rfl rfl hot g1 hd.sec hd.single hd.nolist hv0
+    rw [this]
+  have hPflags : P.flags = f.cfg.flags := by
+    show ((F1.cfg.setLine _).setOpt r _).flags = f.cfg.flags
+    rw [setOpt_flags]
+    have : ∀ (c : Cfg) (n : Nat), (c.setLine n).flags = c.flags := by intro c n; cases c; rfl
+    rw [this, this]
+  obtain ⟨ch', done, e3, hat3, hlev3, hbk3, hopts3, _, _, hv3, _⟩ :=
+    flat_steps orc c.opts s0.opts body m2 child (F2 :: rest) [] hbody hal hrun rfl
+      ⟨rfl, rfl, by intro r' o' hr' _; cases hr'⟩
+      (by show (enterInstance P s0).opts = [] ++ _; rw [enterInstance_opts]; rfl)
+      (by intro p hp; cases hp)
+      (by show List.Pairwise (fun a b => titleEq (enterInstance P s0).flags.nocase a.name b.name = false) c.opts
+          rw [enterInstance_flags]; exact hpw)
+  have gP : F2.cfg.getOpt r = some O1 := getOpt_setOpt _ r o0 _ (by rw [getOpt_setLine]; exact g1)
+  have e4 := pstep_rbrace_pop orc { m2 with frames := ch' :: F2 :: rest } ch' F2 rest n3 r 0 O1
+    hrun rfl hat3.st (by rw [hlev3]; exact Nat.succ_ne_zero _) hat3.nd (by rw [hbk3]) rfl gP (by cases o0; exact hd.noValid)
+  let chL := ch'.cfg.setLine (ch'.cfg.line + n3)
+  let res : Opt := O1.setVals (listSet O1.vals 0 (.sec chL))
+  refine ⟨{ F2 with cfg := (F2.cfg.setOpt r res).afterSection chL, state := .s0 }, res, chL, ?_, ⟨rfl, hat.cm, ?_⟩, rfl, rfl, rfl, ?_, ?_, ?_, ?_⟩
+  · simp only [parseToks, List.foldl_append, List.foldl]
+    rw [e1, e2]
+    have e3' : List.foldl (fun m (t : Tok × Nat) => pstep orc m t.1 t.2) m2 body = { m2 with frames := ch' :: F2 :: rest } := e3
+    rw [e3', e4]
+  · intro r' o' hr' ho'
+    simp only at hr' ho'
+    injection hr' with hr'; subst hr'
+    rw [getOpt_afterSection, getOpt_setOpt _ _ _ _ gP] at ho'
+    injection ho' with ho'; subst ho'
+    cases o0; exact hd.notDep
+  · simp only [Cfg.afterSection_opts]
+    exact setOpt_top _ pre O1 res post (by
+      show ((F1.cfg.setLine _).setOpt r O1).opts = _
+      exact setOpt_top _ pre o0 _ post (by simp only [opts_setLine]; exact hopts))
+  · simp only [Cfg.afterSection_flags, setOpt_flags]; exact hPflags
+  · cases o0; rfl
+  · show All2 _ (ch'.cfg.setLine _).opts c.opts
+    simp only [opts_setLine, hopts3, List.nil_append]
+    exact hv3
+
 /-! ## a configuration one level deep: plain options and untitled multi sections with flat bodies -/
 
 /-- the tokens a printed configuration of depth one scans to: option after option; a section option contributes the
@@ -300,12 +425,17 @@ inductive Tree1Toks : List Opt → List (Tok × Nat) → Prop
       Tree1Toks (o :: os) (ts ++ tss)
 
 /-- declared counterpart at depth one: a plain option as in the flat case; a section option is an untitled multi section
-without instances whose sub-options are the declared counterparts of every printed instance's options -/
+without instances whose sub-options are the declared counterparts of every printed instance's options, or a single
+section holding its instance -/
 def Aligned1 (nc : Bool) (o o0 : Opt) : Prop :=
   (o.ty ≠ .sec ∧ Aligned o o0) ∨
   (o.ty = .sec ∧ o0.name = o.name ∧ SecDecl o0 ∧ o0.vals = [] ∧
      ∀ c, Val.sec c ∈ o.vals → (∀ ci, All2 Aligned c.opts (mkSection ci o0 none).opts) ∧
-                               List.Pairwise (fun a b => titleEq nc a.name b.name = false) c.opts)
+                               List.Pairwise (fun a b => titleEq nc a.name b.name = false) c.opts) ∨
+  -- a single section: both sides hold the one instance, and the instance's options are counterparts
+  (o.ty = .sec ∧ o0.name = o.name ∧ SingleDecl o0 ∧
+     ∃ c s0, o.vals = [.sec c] ∧ o0.vals = [.sec s0] ∧ All2 Aligned c.opts s0.opts ∧
+       List.Pairwise (fun a b => titleEq s0.flags.nocase a.name b.name = false) c.opts)
 
 /-- the same values, one level deep: a plain option holds the printed value sequence; a section option has one instance
 per printed instance, in order, each holding option by option the printed values -/
@@ -368,7 +498,7 @@ theorem tree1_steps (orc : Oracle) (nc : Bool) : ∀ (os os0 : List Opt) (ts : L
           by rw [hfl2, hfl1], All2.cons hsv hv2⟩
       cases hts with
       | plain _ _ ts1 tss hty h1 h2 =>
-        rcases hA with ⟨_, hA⟩ | ⟨hsec, _⟩
+        rcases hA with ⟨_, hA⟩ | ⟨hsec, _⟩ | ⟨hsec, _⟩
         · obtain ⟨hname, hty', hlist, hd⟩ := hA
           obtain ⟨f1, res, e1, hat1, hlev1, hbk1, hot1, hopts1, hfl1, _, hv1, hi1, _, _, _⟩ :=
             opt_step orc m f rest o o0 pre os0' ts1 hrun hfr hat hopts hpre0 hname hty' hlist hd h1
@@ -380,14 +510,16 @@ theorem tree1_steps (orc : Oracle) (nc : Bool) : ∀ (os os0 : List Opt) (ts : L
               (Or.inl ⟨hty, hv1⟩)
           exact ⟨f', done, md, by rw [parseToks_append, e1, e2], rest'⟩
         · exact absurd hsec hty
+        · exact absurd hsec hty
       | secNone =>
         rename_i hty hv h2
-        rcases hA with ⟨hns, _⟩ | ⟨_, hname, hd, hv0, _⟩
+        rcases hA with ⟨hns, _⟩ | ⟨_, hname, hd, hv0, _⟩ | ⟨_, _, _, c', _, hvc, _⟩
         · exact absurd hty hns
         · exact next m f o0 ts h2 hrun hfr hat hot rfl rfl hopts rfl hname
             (Or.inr ⟨hty, [], [], by simpa using hv, by simpa using hv0, All2.nil⟩)
+        · rw [hv] at hvc; cases hvc
       | sec _ _ c cs ts1 tss hty hv h1 h2 =>
-        rcases hA with ⟨hns, _⟩ | ⟨_, hname, hd, hv0, hinst⟩
+        rcases hA with ⟨hns, _⟩ | ⟨_, hname, hd, hv0, hinst⟩ | ⟨_, hname, hd, c', s0, hvc, hv0, halc, hpwc⟩
         · exact absurd hty hns
         · obtain ⟨f1, ss, md1, e1, hat1, hot1, hlev1, hbk1, hopts1, hfl1, hvs⟩ :=
             inst_steps orc cs c ts1 m f rest o0 pre os0' (by rw [hname]; exact h1) hrun hfr hat hot hopts
@@ -402,6 +534,27 @@ theorem tree1_steps (orc : Oracle) (nc : Bool) : ∀ (os os0 : List Opt) (ts : L
             next { m with frames := f1 :: rest, maxDepth := md1 } f1 (o0.withInstances ss) tss h2 hrun rfl hat1 hot1 hlev1 hbk1 hopts1 hfl1 hresname
               (Or.inr ⟨hty, ss, c :: cs, hv, by show o0.vals ++ ss.map Val.sec = ss.map Val.sec; rw [hv0]; rfl, hvs⟩)
           exact ⟨f', done, md, by rw [parseToks_append, e1, e2], rest'⟩
+        · -- a single section: exactly one printed instance
+          rw [hv] at hvc
+          simp only [List.map_cons, List.cons.injEq, Val.sec.injEq, List.map_eq_nil_iff] at hvc
+          obtain ⟨hcc, hcs⟩ := hvc
+          subst hcc; subst hcs
+          cases h1 with
+          | cons _ _ body ts' n1 n2 n3 hb hrest =>
+            cases hrest
+            obtain ⟨f1, res, s', e1, hat1, hot1, hlev1, hbk1, hopts1, hfl1, hres, hvs⟩ :=
+              C05_single_section_item orc m f rest o0 s0 pre os0' c body n1 n2 n3 hrun hfr hat hot hopts
+                (by rw [hname]; exact hpre0) hd hv0 hb halc hpwc
+            have hresname : res.name = o.name := by rw [hres, ← hname]; rfl
+            obtain ⟨f', done, md, e2, rest'⟩ :=
+              next { m with frames := f1 :: rest, maxDepth := max m.maxDepth (rest.length + 2) } f1 res tss h2 hrun rfl hat1 hot1 hlev1 hbk1 hopts1 hfl1 hresname
+                (Or.inr ⟨hty, [s'], [c], hv, by rw [hres]; rfl, All2.cons hvs All2.nil⟩)
+            refine ⟨f', done, md, ?_, rest'⟩
+            rw [parseToks_append]
+            have e1' : parseToks orc m ([(Tok.str o.name, n1), (Tok.lbrace, n2)] ++ body ++ [(Tok.rbrace, n3)] ++ []) =
+                { m with frames := f1 :: rest, maxDepth := max m.maxDepth (rest.length + 2) } := by
+              rw [← hname]; simpa using e1
+            rw [e1', e2]
 
 /-- non-vacuity: the section `n { z = 5 }` of a schema `n` (multi) with one integer option `z` meets the premises -/
 example :
